@@ -26,7 +26,8 @@ def root_cause(mech):
     if f[0] == "capture" and len(f) == 4:
         t, exp, got = f[1], f[2], f[3]
         kinds = set(got.replace("q", ""))
-        if "M" in kinds or "L" in kinds or exp == "L":
+        # a member can only be reached by a qualified path (`X::y` where a closer struct X has a member y)
+        if ("M" in kinds and "q" not in got) or "L" in kinds or exp == "L":
             return None
         if t == "m" and kinds == {"G"} and exp == "G" and "q" not in got:
             return "msl-threaded-globals-share-leaf-name"
@@ -96,7 +97,7 @@ def res_key(mech):
             return "local-captures-type-name", "capture:%s:type:by-local" % t
         if t == "msl" and wrapper and meant == "F" and got == "L":
             return "msl-entry-wrapper-parameter-captures-entry", "capture:msl:F:by-local@wrapper"
-        if ks & set("ML"):
+        if "L" in ks or ("M" in ks and not (qualified and relative)):
             return None, mech
         if t == "msl" and not qualified and got and set(got) <= {"g", "G"} and "g" in got:
             # the parameter / wrapper local of a threaded global is found instead of (or next to) what was meant
